@@ -46,9 +46,20 @@ def setup(tier):
 
 
 # ------------------------------------------------------------------ inputs
-def make_input(rng, kind=None):
-    """(text, description) of one input structure."""
+def make_input(rng, kind=None, base=None, anchor=None):
+    """(text, description) of one input structure. base / anchor: one protein for a whole series of ligand
+    complexes - the ligand, named LIG, sits at one site, so that atom numbers, names and positions of
+    chemically different ligands coincide from one input to the next."""
     from .. import fragments, multiconf, pdbio, sources
+    if base is not None:
+        fr = rng.choice(sorted(fragments.FRAGMENTS))
+        frag, expect, d = fragments.place_near(base, fr, rng, anchor=anchor, dist_A=rng.choice((3.0, 3.5, 4.5)), min_clear_A=2.6)
+        recs = list(base)
+        if frag:
+            for a in frag:
+                a.resn = "LIG"
+            recs = recs + frag
+        return pdbio.dump(recs), {"input": "ligand-series", "fragment": fr, "atoms": len(pdbio.atoms(recs))}
     kind = kind or rng.choice(("cutout", "cluster", "cluster", "chimera", "small-file", "multiconf", "unknown-element",
                                "ligand", "polyamine", "protein", "free-ligand", "late-groups", "acid-chain"))
     if kind == "acid-chain":
@@ -125,8 +136,17 @@ def make_input(rng, kind=None):
         el = rng.choice(("XX", "QQ", "D", "UN"))
         recs = recs + [pdbio.new_atom("HETATM", " 9990", "%-4s" % el if len(el) == 2 else " %-3s" % el, "UNL", "U", 950,
                                       a.x + 4000, a.y + 3000, a.z)]
-    if kind in ("ligand", "polyamine"):
+    if kind == "dna":
+        # a nucleotide (its groups take model pKa values of their own from the parameter file)
+        frag, expect, d = fragments.place_near(recs, rng.choice(("dna:DA", "dna:DC", "dna:DG", "dna:DT")), rng, dist_A=rng.uniform(3.5, 8.0))
+        if frag:
+            recs = recs + [pdbio.raw("TER")] + frag
+        return pdbio.dump(recs), {"input": kind, "atoms": len(pdbio.atoms(recs))}
+    if kind in ("ligand", "polyamine", "op-ligand"):
         fr = rng.choice(("pentamine", "hexamine", "triamine")) if kind == "polyamine" else rng.choice(sorted(fragments.FRAGMENTS))
+        if kind == "op-ligand":
+            # ligands whose groups share their type with nucleotide groups (phosphate oxygens, aromatic nitrogens)
+            fr = rng.choice(("methylphosphate", "pyridine", "imidazole"))
         frag, expect, d = fragments.place_near(recs, fr, rng, dist_A=rng.uniform(3.0, 9.0))
         if frag:
             if rng.random() < 0.6:
@@ -278,8 +298,23 @@ def run_history(case, rng, viol, counts, classes):
     import propka.run
     from .. import obs, util
     ninputs = rng.choice((2, 3, 3, 4))
-    if rng.random() < 0.25:
+    u_ = rng.random()
+    if u_ < 0.12:
         inputs = [make_input(rng, "ligand") for _ in range(ninputs)]      # a series of ligand complexes
+    elif u_ < 0.25:
+        # ... of one protein, the ligands docked at one site
+        from .. import sources
+        from .c16 import titratable_anchor
+        base_ = [r for r in sources.random_small_structure(rng, 80, 500) if r.raw is not None or r.tag == "ATOM  "]
+        anchor_ = titratable_anchor(base_, rng)
+        inputs = [make_input(rng, base=base_, anchor=anchor_) for _ in range(max(3, ninputs))]
+        classes.append("ligand-series-on-one-protein")
+    elif u_ < 0.4:
+        classes.append("nucleotides-and-ligands-of-the-same-group-types")
+        # nucleic acids and ligands with groups of the same types, in one process / one invocation
+        inputs = [make_input(rng, rng.choice(("dna", "op-ligand"))) for _ in range(ninputs)]
+        inputs[0] = make_input(rng, "dna")
+        inputs[-1] = make_input(rng, "op-ligand")
     else:
         inputs = [make_input(rng) for _ in range(ninputs)]
     # the pool of (input, options) pairs; some are used twice
@@ -316,6 +351,8 @@ def run_history(case, rng, viol, counts, classes):
             text = inputs[i][0]
             key = (i, dumps(o))
             mode = rng.choice(("stream", "path", "stream", "main", "zip"))
+            if "nucleotides-and-ligands-of-the-same-group-types" in classes and rng.random() < 0.5:
+                mode = "main"            # several files in one invocation share one parameter object
             if mode == "main" and "-c" in o:      # a chain the other files lack would end the invocation early
                 mode = "stream"
             # change the working directory and the heap between calls
